@@ -266,8 +266,16 @@ func (env *Zlisp) MakeSymbol(name string) *SexpSymbol {
 }
 
 func (env *Zlisp) GenSymbol(prefix string) *SexpSymbol {
-	symname := prefix + strconv.Itoa(env.nextsymbol)
-	return env.MakeSymbol(symname)
+	// nextsymbol is per interpreter while the table is shared with every
+	// Duplicate/Clone (macro expansion runs in one), so the counter alone
+	// does not make the name fresh: skip names that are already interned.
+	for {
+		symname := prefix + strconv.Itoa(env.nextsymbol)
+		if _, taken := env.symtable[symname]; !taken {
+			return env.MakeSymbol(symname)
+		}
+		env.nextsymbol++
+	}
 }
 
 func (env *Zlisp) CurrentFunctionSize() int {
